@@ -677,6 +677,32 @@ def run(ctx):
     from . import c17 as _c17
     _c17.run(_c05._filtered(_c05._Sub(ctx, 'R06o'), ('P2', 'P4')))
 
+    # ---- R06s: a terminator is cut off only where it is there
+    ctx.rule('R06s', 'parser code removes a terminator from the end (start) of what it read -- `X[:-len(T)]`, `X[len(T):]` -- only '
+                     'under `X.endswith(T)` (`X.startswith(T)`): when the input ended before the terminator (the case tolerant '
+                     'mode recovers from) the last len(T) characters are content, not terminator '
+                     '(grules.unguarded_affix_strips; exercised on a built-in example on every run)', 1)
+    from .. import grules as _gr6
+    ex6 = ast.parse('def f(v, info):\n e = info.end_code\n v = v[:-len(e)]\n return v\n')
+    set_parents(ex6)
+    if len(list(_gr6.unguarded_affix_strips(ex6.body[0]))) != 1:
+        raise AnalysisError('R06s: the rule no longer fires on its built-in example')
+    n_as, n_sl = 0, 0
+    for mod_ in sorted(repo.modules.values(), key=lambda m_: m_.name):
+        if not mod_.name.startswith(PARSER_LAYER):
+            continue
+        for q_, f_ in sorted(mod_.functions.items()):
+            n_sl += len([1 for x_ in ast.walk(f_) if isinstance(x_, ast.Subscript) and isinstance(x_.slice, ast.Slice)])
+            for x_, xt_, yt_, kind_ in _gr6.unguarded_affix_strips(f_):
+                n_as += 1
+                ctx.refuted('R06s', mod_, x_, '%s cuts len(%s) characters off the %s of %s (%s) on a path without `%s.%s(%s)`: '
+                            'when the input ends before the terminator -- an unterminated verbatim environment, which tolerant '
+                            'mode keeps as far as it was read -- the last characters of the content are lost'
+                            % (q_, yt_, 'end' if kind_ == 'endswith' else 'start', xt_, short(x_, 40), xt_, kind_, yt_),
+                            construct='%s: %s' % (q_, short(x_, 40)))
+    ctx.holds('R06s', repo.mod(EXPR), None, 'no unguarded terminator strip among %d slices of the parser layer' % n_sl,
+              construct='terminator strip scan')
+
     # ---- R06r (C11 R11e): recovery tokens keep the white space in front of them
     ctx.rule('R06r', 'every token the reader builds -- the recovery placeholders of token errors included -- carries the pre_space '
                      'its method was given: in tolerant mode the blank in front of a broken token stays part of the content '
